@@ -234,6 +234,11 @@ HELPERS = {
 }
 
 
+# a type whose method is named like an fmt function: `var fmt = P{1}; fmt.Println(2)` is a method call
+SHADOW_P = [("ty", "P"), ("me", "P", "p", "Println", ["k"], False,
+                           [("E", False, sel("fmt", "Print", S("P.Println "), ("A", ("F", "p", "n"), V("k")), S("\n")))])]
+
+
 def typeT(name="T", methods=("Get", "Add", "Show")):
     ds = [("ty", name)]
     for m in methods:
@@ -258,15 +263,19 @@ class Gen:
 
     VARS = ["a", "b", "c", "x", "y", "k", "v", "w"]
 
-    def __init__(self, rng):
+    def __init__(self, rng, shadow_bias=0):
         self.rng = rng
         self.shape = {}
+        self.shadow_bias = shadow_bias   # > 0: nested scopes declare `var fmt = P{..}` (tracked shadowing) with probability 1/bias
 
     def note(self, k):
         self.shape[k] = self.shape.get(k, 0) + 1
 
     def pick(self, xs):
         return xs[self.rng.below(len(xs))]
+
+    def shadowed(self):
+        return any("fmt" in sc for sc in self.scopes)
 
     def vars_of(self, ty):
         seen, out = set(), []
@@ -323,6 +332,8 @@ class Gen:
             if vs:
                 return V(self.pick(vs))
             return S("s")
+        if r in (3, 4) and self.shadowed():
+            return S("sh")
         if r == 3:
             self.note("fmt:Sprint")
             return sel("fmt", "Sprint", self.int_expr(d + 1))
@@ -372,12 +383,23 @@ class Gen:
         out = []
         for _ in range(n):
             s = self.stmt(d)
-            if s:
+            if isinstance(s, list):
+                out += s
+            elif s:
                 out.append(s)
         return out
 
     def stmt(self, d):
+        if self.shadow_bias and len(self.scopes) >= 3 and "fmt" not in self.scopes[-1] and self.rng.below(self.shadow_bias) == 0:
+            # a var named like the fmt import, declared in a nested scope: tracked by formatCtx until the scope ends
+            self.note("shadow:var-fmt-in-nested-scope")
+            self.need.add("P")
+            self.scopes[-1]["fmt"] = "P"
+            return [("W", "fmt", ("N", "P", self.int_expr(d))), ("E", False, sel("fmt", "Println", self.int_expr(d)))]
         r = self.rng.below(14)
+        if r < 6 and self.shadowed():
+            self.note("shadow:method-call-on-fmt-var")
+            return ("E", False, sel("fmt", "Println", self.int_expr(d)))
         if r < 3:
             self.note("fmt:Println")
             return ("E", False, sel("fmt", "Println", *self.any_args(d)))
@@ -395,7 +417,9 @@ class Gen:
             x = self.fresh()
             if not x:
                 return None
-            if self.rng.below(3) == 0:
+            if self.shadowed():
+                e, t = self.int_expr(d), "int"
+            elif self.rng.below(3) == 0:
                 e, t = self.str_expr(d), "string"
             elif self.rng.below(3) == 0:
                 e, t = ("N", "T", self.int_expr(d)), "T"
@@ -441,7 +465,9 @@ class Gen:
     def close(self, body, mark):
         """every variable declared since `mark` is printed once (Go rejects unused variables)"""
         for x, t in self.used_later[mark:]:
-            if t == "T":
+            if self.shadowed():
+                body.append(("E", False, sel("fmt", "Println", sel(x, "Get") if t == "T" else V(x))))
+            elif t == "T":
                 body.append(println(S(x), sel(x, "Get")))
             else:
                 body.append(println(S(x), V(x)))
@@ -493,7 +519,9 @@ class Gen:
         mid = []
         if "T" in self.need or any("T" in str(d) for d in decls + gl):
             mid += typeT()
-        for h in sorted(self.need - {"T"}):
+        if "P" in self.need:
+            mid += SHADOW_P
+        for h in sorted(self.need - {"T", "P"}):
             mid.append(HELPERS[h])
         body = mid + gl + decls
         # main last (unwrapped) or in the middle
@@ -531,6 +559,17 @@ def deterministic():
     # control: fmt shadowed by a var spec IS tracked
     P.append(("det-shadow-var-tracked", [fmt] + shadowT + [("fn", "main", [], False, [
         println(S("start")), ("W", "fmt", ("N", "P", I(1))), ("E", False, sel("fmt", "Println", I(2)))], None)]))
+    # scope tracking: a var named like the import, declared inside a scope-introducing statement, stops
+    # shadowing when the scope ends (controls; every one is followed by a real fmt call)
+    def scoped(name, stmts_):
+        P.append((name, [fmt] + SHADOW_P + [HELPERS["twice"], ("fn", "main", [], False, [println(S("start"))] + stmts_ + [println(S("after"), I(9))], None)]))
+    shadow = [("W", "fmt", ("N", "P", I(1))), ("E", False, sel("fmt", "Println", I(2)))]
+    scoped("det-scope-bare-block", [("B", shadow)])
+    scoped("det-scope-nested-blocks", [("B", [println(S("in")), ("B", shadow), println(S("mid"))]), ("B", shadow)])
+    scoped("det-scope-if-then", [("If", I(1), shadow, [println(S("else"))])])
+    scoped("det-scope-if-else", [("If", I(0), [println(S("then"))], shadow)])
+    scoped("det-scope-funclit", [("E", False, call("twice", ("U", [], False, shadow)))])
+    scoped("det-scope-block-in-funclit", [("E", False, call("twice", ("U", [], False, [("B", shadow), println(S("lit"))])))])
     # R3: user function / variable named like an XGo builtin
     P.append(("det-user-echo", [fmt, ("fn", "echo", ["k"], False, [("E", False, sel("fmt", "Print", S("my echo "), V("k"), S("\n")))], None),
                                 ("fn", "main", [], False, [println(I(7)), ("E", False, call("echo", I(8)))], None)]))
@@ -577,6 +616,90 @@ import "fmt"
 func main() {
 	for i := 0; i < 2; fmt.Print(i, "\\n") {
 		i++
+	}
+}
+"""),
+    ("raw-scope-statements", """package main
+
+import "fmt"
+
+type P struct{ n int }
+
+func (p P) Println(k int) { fmt.Print("P.Println ", p.n+k, "\\n") }
+
+func main() {
+	fmt.Println("start")
+	for i := 0; i < 1; i++ {
+		var fmt = P{1}
+		fmt.Println(i)
+	}
+	fmt.Println("after for")
+	if x := 1; x > 0 {
+		var fmt = P{2}
+		fmt.Println(x)
+	} else if x < 0 {
+		fmt.Println("neg")
+	} else {
+		var fmt = P{3}
+		fmt.Println(x)
+	}
+	fmt.Println("after if")
+	switch y := 2; y {
+	case 1:
+		fmt.Println("one")
+	default:
+		var fmt = P{4}
+		fmt.Println(y)
+	}
+	fmt.Println("after switch")
+	var v interface{} = 5
+	switch z := v.(type) {
+	case int:
+		var fmt = P{5}
+		fmt.Println(z)
+	}
+	fmt.Println("after type switch")
+	ch := make(chan int, 1)
+	ch <- 6
+	select {
+	case w := <-ch:
+		var fmt = P{6}
+		fmt.Println(w)
+	}
+	fmt.Println("after select")
+lbl:
+	{
+		var fmt = P{7}
+		fmt.Println(7)
+		if v == nil {
+			goto lbl
+		}
+	}
+	fmt.Println("after labelled block")
+	func() {
+		const fmt = 8
+		println(fmt)
+	}()
+	fmt.Println("after const")
+}
+"""),
+    ("raw-scope-case-clauses", """package main
+
+import "fmt"
+
+type P struct{ n int }
+
+func (p P) Println(k int) { fmt.Print("P.Println ", p.n+k, "\\n") }
+
+func main() {
+	for y := 1; y <= 2; y++ {
+		switch y {
+		case 1:
+			var fmt = P{1}
+			fmt.Println(y)
+		case 2:
+			fmt.Println("two")
+		}
 	}
 }
 """),
